@@ -35,11 +35,14 @@ CLAIMED["C14"] = {
             "makes the entering column the unit column e_t and keeps the other basic unit columns, keeps c.x - value constant on the solution set, updates basis and dimensions; "
             "step_inner reports Finished only without an improving column, Unbounded only with a genuine witness column, and a Pivot only on an eligible (entering, leaving) pair; "
             "ghost lemmas derive monotonicity of the value and feasibility up to the ratio test's tolerance; the six tolerance predicates have their exact meaning and form a consistent order. "
-            "Because the contract quantifies over every tableau it covers every prefix of every pivot sequence. The column/row selection functions are checked only by BOUNDED Kani harnesses (labelled, not counted as proved). "
+            "Because the contract quantifies over every tableau it covers every prefix of every pivot sequence. The selection functions are proved as well, for every tableau size (U14.ratio; their lazy iterator chains are read through rules R37, R51, R60, R61): "
+            "is_optimal is the tolerant sign test of every reduced cost; find_h (Bland and Dantzig) returns a non-basic column whose reduced cost is below zero beyond the tolerance and None only when there is none; "
+            "find_t returns an eligible row with its own ratio such that no eligible row has a ratio smaller by more than the tolerance, and None only without an eligible row. "
+            "Bringing find_t under contract showed that the contract the step proof had ASSUMED for it was false (tie-break drift, one tolerance per near-tied row): a genuine defect, repaired (fix d8d6f69) and pinned by a bounded search over near-tie chains and pseudo-random tableaux on the real code. "
             "Anti-cycling (finishing within the iteration limit) is liveness and is NOT decided.",
-    "note": "Trusted: prelude/f64_layer.rs (exact real arithmetic on finite floats; powi by a one-entry table). Assumed in Verus and only bounded-checked by Kani: is_optimal/find_h/find_t contracts. "
+    "note": "Trusted: prelude/f64_layer.rs (exact real arithmetic on finite floats; powi by a one-entry table). Which of several rows tied within the tolerance leaves is not constrained (any of them satisfies the contract). A Kani harness re-checks find_h under CBMC's IEEE float model in the thorough tier (bounded). "
             "Not decided: termination/anti-cycling, two-phase drive-out (split_at_mut code neither back end takes).",
-    "technique": "Verus loop invariants + ghost linear-algebra lemmas on extracted Tableau::pivot/step_inner; Kani bounded harnesses for the selection rules",
+    "technique": "Verus loop invariants + ghost linear-algebra lemmas on extracted Tableau::pivot / step_inner / find_h / find_t / is_optimal; bounded executable-postcondition search for the ratio test; Kani bounded cross-check of find_h (thorough)",
     "design_ref": "DESIGN.md §5 C14",
 }
 
@@ -131,11 +134,11 @@ CLAIMED["C04"] = {
 }
 CLAIMED["C05"] = {
     "text": "Verdict mapping proved on the real code: Err(Infeasible)/Err(Unbounded) of the MILP bridge are returned only when the library reports them for exactly this model; auto_solver answers without the solver only a model with no rows and no variables; "
-            "one step of the tableau simplex reports Finished only without an improving column and Unbounded only with a genuine witness column (U14.step), pivots preserve the solution set (U14.pivot). "
-            "BOUNDED (labelled): the tableau path against the microlp bridge on small LPs (U13.std), and the tableau path against Clarabel on about 900 continuous three-variable models (U04.sol): same verdict kind, optima within 1e-6 relative. "
+            "one step of the tableau simplex reports Finished only without an improving column and Unbounded only with a genuine witness column (U14.step), pivots preserve the solution set (U14.pivot), and the selection rules behind the step (optimality test, entering column, ratio test) are proved for every tableau size (U14.ratio; the ratio test after the repair d8d6f69 of its tie-break drift). "
+            "BOUNDED (labelled): the ratio test's executable postcondition on near-tie chains and pseudo-random tableaux; the tableau path against the microlp bridge on small LPs (U13.std), and the tableau path against Clarabel on about 900 continuous three-variable models (U04.sol): same verdict kind, optima within 1e-6 relative. "
             "NOT decided deductively: that the simplex always reaches a verdict (termination), the two-phase start, Clarabel status mapping, agreement between solvers in general (bounded checks only).",
-    "note": _LIB + "Kani harnesses for the tableau selection rules are bounded (labelled).",
-    "technique": "Verus contracts on extracted auto_solver / solve_milp_lp_problem_with / Tableau::step_inner; Kani bounded harnesses for find_h/find_t",
+    "note": _LIB + "A Kani harness re-checks find_h under CBMC's float model in the thorough tier (bounded, labelled).",
+    "technique": "Verus contracts on extracted auto_solver / solve_milp_lp_problem_with / Tableau::step_inner / find_h / find_t / is_optimal; bounded differential searches on the real solvers",
     "design_ref": "DESIGN.md §5 C05",
 }
 CLAIMED["C15"] = {
